@@ -81,6 +81,28 @@ theorem C14_join_declared_is_created_full_FALSE : ¬ (∀ a b : Name, createsLin
 theorem C14_join_declared_is_created_partial {a b : Name} (h : pyLt b a = false) : createsLink a b = true := by
   simp [createsLink, h]
 
+/-- the same in terms of what the current source compares (`Extracted.linkCreateKey`: class names or table
+    names): of two classes whose compared names differ exactly one creates the link table -/
+theorem C14_join_table_once_by_key (a b : ClsNames)
+    (h : Extracted.linkCreateKey.of a ≠ Extracted.linkCreateKey.of b) :
+    (sideActs Extracted.linkCreateKey a b = true ∧ sideActs Extracted.linkCreateKey b a = false) ∨
+    (sideActs Extracted.linkCreateKey a b = false ∧ sideActs Extracted.linkCreateKey b a = true) :=
+  join_once_distinct h
+
+/-- the class that creates a link table is the class that drops it (`_getJoinsToCreate` and
+    `dropJoinTables` apply the same test), whatever table names / styles the classes use -/
+theorem C14_join_creator_is_dropper (self other : ClsNames) :
+    sideActs Extracted.linkCreateKey self other = sideActs Extracted.linkDropKey self other := by
+  have h : Extracted.linkCreateKey = Extracted.linkDropKey := by decide
+  rw [h]
+
+/-- dropping one class of a two-sided pair and creating it again leaves the link table in place -/
+theorem C14_join_drop_then_recreate (x other : ClsNames) :
+    linkAfterCreate Extracted.linkCreateKey x other (linkAfterDrop Extracted.linkDropKey x other true) = true := by
+  have h : Extracted.linkCreateKey = Extracted.linkDropKey := by decide
+  rw [h]
+  cases hs : sideActs Extracted.linkDropKey x other <;> simp [linkAfterCreate, linkAfterDrop, hs]
+
 /-! ### create-if-missing / drop-if-present over the catalogue model -/
 
 theorem C14_create_if_missing_idempotent {r : Req} {c c1 : Cat} (h : createTable true r c = .ok c1) :
